@@ -346,6 +346,8 @@ def contains(I, container, x, node):
     hook = getattr(container, "__sym_contains__", None)
     if hook:
         return hook(I, x, node)
+    if isinstance(container, SObj) and container.cls is not None and hasattr(container.cls, "__contains__"):
+        return L.truth(I.call(class_attr(I, container, container.cls, "__contains__"), [x], {}, node))
     raise SymError("`in` on %s" % type(container).__name__)
 
 
@@ -445,6 +447,8 @@ def subscript(I, obj, idx, node):
     hook = getattr(obj, "__sym_getitem__", None)
     if hook:
         return hook(I, idx, node)
+    if isinstance(obj, SObj) and obj.cls is not None and hasattr(obj.cls, "__getitem__"):
+        return I.call(class_attr(I, obj, obj.cls, "__getitem__"), [idx], {}, node)
     if isinstance(obj, SIter) and isinstance(obj.length, int) and isinstance(idx, int):
         return obj.item(idx if idx >= 0 else obj.length + idx)
     if obj is None:
@@ -739,4 +743,5 @@ def apply_contract(I, c, args, kwargs, node):
     env = dict(bound, old=old, result=result)
     for cname, fn in c.ensures:
         ctx.assume(c.apply(fn, env))
+    ctx.last_result = result
     return result
